@@ -106,7 +106,7 @@ theorem derived_variant_name (go : List PName → Option Bytes → TyExpr → DO
       | some r2 => simp [hr] at h; rw [← h.1]; rfl
     | struct fields =>
       simp [hsh] at h
-      cases hr : deriveFieldsWith go rf fields named ns with
+      cases hr : deriveFieldsWith go (v.renameAll.or rf) fields named ns with
       | none => simp [hr] at h
       | some r2 => simp [hr] at h; rw [← h.1]; rfl
 
